@@ -1,3 +1,5 @@
+//go:build !verif_nodawg
+
 package main
 
 import (
